@@ -689,3 +689,111 @@ pub fn c02_cache_case(seed: u64, case: u64) -> CaseResult {
     res.sample = Some(json!({"variant": vname, "caps": [caps.0, caps.1], "extra_objects": extra}));
     res
 }
+
+// ------------------------------------------------------------------------------------ C13 (verbatim redo from the past)
+/// c1: D1, c2: D2, c3: back to D1 (every object is already in a pack, so the block names none);
+/// travel to c2 and redo exactly that edit with the same metadata: the commit reproduces block c3
+/// byte for byte.  It must be reported as the new (only) head, and the next commit must build on it.
+pub fn c13_redo_case(seed: u64, case: u64) -> CaseResult {
+    use crate::gen;
+    let mut res = CaseResult::default();
+    let mut r = Rng::derive(seed, case, 0xC13);
+    let dp = gen::DocProfile { kind_change: false, ..gen::DocProfile::default() };
+    let caps = (*r.pick(&[1u32, 2, 16]), *r.pick(&[1u32, 2, 16]));
+    let (ad, st) = store::mon_mem();
+    let m = match open_with(&ad, caps) {
+        Outcome::Ok(m) => m,
+        o => {
+            res.aborted = Some(o.describe());
+            return res;
+        }
+    };
+    let d1 = gen::rand_doc(&mut r, &dp);
+    let d2 = gen::mutate_doc(&mut r, &dp, &d1);
+    let info = gen::rand_info(&mut r, 3);
+    let out = guard(|| {
+        m.update(d1.as_object().unwrap().clone())?;
+        let c1 = m.commit(gen::rand_info(&mut r, 1))?;
+        m.update(d2.as_object().unwrap().clone())?;
+        let c2 = m.commit(gen::rand_info(&mut r, 2))?;
+        m.update(d1.as_object().unwrap().clone())?;
+        let c3 = m.commit(info.clone())?;
+        Ok((c1, c2, c3))
+    });
+    let (c2, c3) = match out {
+        Outcome::Ok((Some(_), Some(c2), Some(c3))) => (c2, c3),
+        Outcome::Ok(_) => {
+            // D2 == D1 (the mutation changed nothing): no such history, nothing to judge
+            res.aborted = Some("degenerate documents".into());
+            return res;
+        }
+        o => {
+            res.viol("C08", "error-in-redo-history", o.describe());
+            return res;
+        }
+    };
+    let after_c3 = observe(&m);
+    let nwrites = st.writes.lock().unwrap().len();
+    let redo = guard(|| {
+        m.reload_until(&c2)?;
+        m.update(d1.as_object().unwrap().clone())?;
+        m.commit(info.clone())
+    });
+    match redo {
+        Outcome::Ok(Some(an)) => {
+            let same_block = an == c3;
+            if std::env::var("VERIF_DEBUG_REDO").is_ok() && !same_block {
+                let files = store::dump(&ad);
+                for a in c3.iter().chain(an.iter()) {
+                    eprintln!("BLOCK {} {}", a, String::from_utf8_lossy(files.get(&a.key()).map(|v| v.as_slice()).unwrap_or(b"?")));
+                }
+            }
+            res.features.insert("reproduced_existing_block".into(), same_block as u64);
+            let rewrote = st.writes.lock().unwrap()[nwrites..].iter().any(|e| e.key.ends_with(".delta") && e.existed && e.same_bytes);
+            res.features.insert("rewrote_identical_bytes".into(), rewrote as u64);
+            let heads = m.get_anchors();
+            if heads != an {
+                res.viol("C13", "new-block-not-only-head", format!("commit returned {:?} but heads are {:?}", an.iter().map(|a| a.to_string()).collect::<Vec<_>>(), heads.iter().map(|a| a.to_string()).collect::<Vec<_>>()));
+            }
+            let o = observe(&m);
+            if same_block && o.s_value(false) != after_c3.s_value(false) {
+                res.viol("C13", "redone-commit-shows-another-state", after_c3.diff(&o));
+            }
+            // the next commit builds on it
+            let d3 = gen::mutate_doc(&mut r, &dp, &d1);
+            let nxt = guard(|| {
+                m.update(d3.as_object().unwrap().clone())?;
+                m.commit(None)
+            });
+            if let Outcome::Ok(Some(n)) = nxt {
+                for a in &n {
+                    if let Ok(Some(d)) = m.get_delta(a) {
+                        if d.parents.as_ref() != Some(&an) {
+                            res.viol("C13", "parents-not-previous-heads", format!("{:?} vs {:?}", d.parents.map(|p| p.iter().map(|x| x.to_string()).collect::<Vec<_>>()), an.iter().map(|x| x.to_string()).collect::<Vec<_>>()));
+                        }
+                    }
+                }
+            }
+            // a fresh replica agrees with the live one (when the redo produced a twin with other bytes the
+            // live replica is simply in the past of a storage that also holds the original block)
+            if !same_block {
+                res.count("c13_redo_scenarios", 1);
+                res.opkinds = format!("{:?}", res.features);
+                return res;
+            }
+            if let Outcome::Ok(f) = open_with(&ad, caps) {
+                let of = observe(&f);
+                let ol = observe(&m);
+                if of.s_value(false) != ol.s_value(false) || of.anchors != ol.anchors {
+                    res.viol("C03", "reopen-differs", ol.diff(&of));
+                }
+            }
+            res.count("c13_redo_scenarios", 1);
+        }
+        Outcome::Ok(None) => res.viol("C13", "redo-commit-reported-nothing", String::new()),
+        o => res.viol("C08", "error-in-redo-history", o.describe()),
+    }
+    res.opkinds = format!("{:?}", res.features);
+    res.sample = Some(json!({"d1": d1, "d2": d2, "info": info.map(serde_json::Value::Object)}));
+    res
+}
